@@ -64,6 +64,8 @@ def body(rng, names, kind=None, fail=None, depth=0, max_len=3, tag=None):
     if fail is None and rng.random() < 0.3:
         # branch outputs that are falsy but not null are ordinary results
         sts.append((names(), P(Result=copy.deepcopy(rng.choice(FALSY))) if rng.random() < 0.5 else task(rng, rng.choice(["zero", "empty", "nil"]))))
+    if fail is None and rng.random() < 0.15:
+        sts.append((names(), {"Type": "Succeed"}))      # a branch may end in a Succeed state as well as in End:true
     if fail == "task":
         sts.append((names(), task(rng, "boom")))
     elif fail == "state":
